@@ -631,12 +631,12 @@ theorem parseBlock_meta_head_trace (s0 : BP α) (hk : (s0.toks[s0.cur]?).map (·
     exact ((tf_parseMultilineBlock (α := α)).run s).1.trans hs
   cases e with
   | none =>
-    rw [withRecover_none (s2 := s1)]
+    rw [withRecover_none_ma (s2 := s1)]
     · simpa [Option.toList] using hother { s1 with cur := s0.cur } rfl
     · simp only [StateT.bind, hme]; rfl
   | some ev =>
     obtain ⟨k, v, rfl⟩ := hret ev rfl
-    rw [withRecover_some (s2 := s1) (a := .metadata k v)]
+    rw [withRecover_some_ma (s2 := s1) (a := .metadata k v)]
     · show traceOf (s1.evs.push (.metadata k v)) = _
       rw [traceOf_push]; rfl
     · simp only [StateT.bind, hme, Bool.or_true, if_true]; rfl
